@@ -257,7 +257,7 @@ def run(ctx, chk):
             n_rel += 1
             chk.ob("C13.provenance", "%s(%s) in %s" % (g, _short(c.operands[0]), f.name), ok, c.loc(), fn=f.name,
                    key="%s:%s:%s" % (f.name, g, _short(c.operands[0])), detail=why)
-    chk.floor("C13.provenance", "release/resize sites", n_rel, 20)
+    chk.floor("C13.provenance", "release/resize sites", n_rel, 12)
     chk.ob("C13.control", "verif_ctl_free_interior", ctl_fired, "controls/ctl_alloc.c")
 
     # ---- rule surface -----------------------------------------------------------
@@ -272,7 +272,7 @@ def run(ctx, chk):
             chk.ob("C13.surface", f.name, ok, "%s:%d" % (f.file, f.line), fn=f.name,
                    detail="" if ok else "reaches an allocator call (allocates=%s frees=%s) via %s"
                    % (S["allocates"], S["frees"], _alloc_chain(eff, f.name)))
-    chk.floor("C13.surface", "surface functions", n_surf, 40)
+    chk.floor("C13.surface", "surface functions", n_surf, 30)
     S = eff.summ.get("verif_ctl_alloc_in_encoder")
     chk.ob("C13.control", "verif_ctl_alloc_in_encoder", bool(S and S["allocates"] and S["frees"]), "controls/ctl_alloc.c")
     chk.count("units", len(prog.facts["units"]))
